@@ -5,7 +5,8 @@
     limit changes, slab pressure) are the ones the correspondence check compares
     with the real [SessionManager] on every run. *)
 From Coq Require Import List Arith ZArith NArith Bool Lia.
-From SV Require Import C16.Model C16.Proofs.
+From Coq Require Import Sorting.Permutation.
+From SV Require Import C16.Model C16.Proofs C16.QModel C16.QProofs.
 Import ListNotations.
 Open Scope N_scope.
 
@@ -152,6 +153,63 @@ Proof.
   - intros id L U. apply pool_checkout_live; [repeat split; assumption|assumption|assumption].
 Qed.
 
+(** 6. The accept queue ([Server::accept] / [create_sessions] as modelled in
+    C16/QModel.v).  After every history of accepts, [create_sessions] rounds,
+    clock ticks, session events, closes and zombie checks, with or without
+    [evict_on_queue_full]: every connection ever taken from a listener is in
+    exactly one of three places — still queued, served (it became a session) or
+    dropped (queue timeout, or refused at the cap) — never two of them, and it
+    never disappears; [nb_connections] is the number of sessions and never
+    exceeds [max_connections].  The queue itself has no bound in the code: its
+    length is what was accepted minus what was served or dropped. *)
+Theorem queued_served_or_dropped_exactly_once :
+  forall (mx timeout : N) (evict : bool) (ops ops2 : list qop),
+    let s := q_run (srv_new mx timeout evict) ops in
+    NoDup (map fst (v_queue s) ++ v_served s ++ v_dropped s) /\
+    (forall id, In id (all_ids s) -> In id (all_ids (q_run s ops2))) /\
+    v_nb s = N.of_nat (length (v_sessions s)) /\ v_nb s <= v_max s.
+Proof.
+  intros mx timeout evict ops ops2 s. split; [|split].
+  - apply (q_run_nodup ops (srv_new mx timeout evict)). constructor.
+  - intros id. apply q_run_keeps.
+  - apply (q_run_counts ops (srv_new mx timeout evict)). split; cbn; lia.
+Qed.
+
+(** 7. Eviction ([evict_least_active_sessions]): the victims are the sessions
+    owning the [count] least recently active slab entries — no survivor is less
+    recently active than a victim —, at least one whenever a session exists,
+    victims and survivors together are exactly the sessions there were, the
+    slab entries released are exactly the victims', and [nb_connections] drops
+    by exactly their number; queue, served and dropped are untouched. *)
+Theorem eviction_least_active :
+  forall (s : srv) (count : N),
+    let sorted := isort (v_sessions s) in
+    let k := snd (evict s count) in
+    let s' := fst (evict s count) in
+    (forall v w, In v (firstn k sorted) -> In w (v_sessions s') -> s_last v <= s_last w) /\
+    Permutation (firstn k sorted ++ v_sessions s') (v_sessions s) /\
+    sum_entries (v_sessions s') + sum_entries (firstn k sorted) = sum_entries (v_sessions s) /\
+    v_nb s' = v_nb s - N.of_nat k /\
+    (1 <= count -> v_sessions s <> [] -> (1 <= k)%nat) /\
+    v_queue s' = v_queue s /\ v_served s' = v_served s /\ v_dropped s' = v_dropped s.
+Proof.
+  intros s count. destruct (evict_spec s count) as (_ & A & B & C & D & _ & E & F & G & H & _).
+  cbn zeta. repeat split; assumption.
+Qed.
+
+(** 8. Zombie check: it reclaims exactly the sessions idle for longer than the
+    interval — a session survives iff it was there and its last event is at
+    most [interval] old — and the counters follow. *)
+Theorem zombie_reclaims_exactly :
+  forall (s : srv) (interval : N) (x : sess),
+    (In x (v_sessions (zombie_check s interval)) <-> In x (v_sessions s) /\ v_now s - s_last x <= interval) /\
+    (v_nb s = N.of_nat (length (v_sessions s)) -> v_nb s <= v_max s ->
+     v_nb (zombie_check s interval) = N.of_nat (length (v_sessions (zombie_check s interval)))).
+Proof.
+  intros s interval x. split; [apply zombie_spec|].
+  intros A B. pose proof (q_apply_counts s (QZombie interval) (conj A B)) as [C _]. exact C.
+Qed.
+
 (* ------------------------------------------------------------------ *)
 (** non-vacuity *)
 
@@ -186,4 +244,16 @@ Example idle_admits_nonvacuous :
   let st := run_ops init [ONew 1 0; OFill 12] in
   live st = [] /\ slab (st_sm st) = 12 /\ snd (check_limits (st_sm st)) = true /\
   snd (check_limits (st_sm (run_ops st [OBackfill 2]))) = false.
+Proof. vm_compute. repeat split. Qed.
+
+Example queue_nonvacuous :
+  let ops := [QEnqueue 1; QEnqueue 2; QEnqueue 3; QCreate; QTick 5; QEnqueue 4; QTouch 3; QCreate; QTick 100; QZombie 50] in
+  let s := q_run (srv_new 2 3 false) ops in
+  v_served s = [2; 3] /\ v_dropped s = [1] /\ v_queue s = [] /\ v_sessions s = [] /\ v_nb s = 0 /\ v_accept s = true.
+Proof. vm_compute. repeat split. Qed.
+
+Example eviction_nonvacuous :
+  let s := q_run (srv_new 2 60 true) [QEnqueue 1; QCreate; QTick 1; QEnqueue 2; QCreate; QTick 1; QTouch 1; QEnqueue 3; QCreate] in
+  (* the cap was reached with sessions 1 and 2; 2 is the least recently active: evicted for connection 3 *)
+  map s_tok (v_sessions s) = [3; 1] /\ v_served s = [3; 2; 1] /\ v_dropped s = [] /\ v_nb s = 2.
 Proof. vm_compute. repeat split. Qed.
